@@ -1,16 +1,31 @@
 #!/usr/bin/env python3
-"""Re-runs, for every kept seeded change, the quick checks that are recorded as detecting it
-(meta.json: checks_run == DETECTED) and reports regressions. Usage: seed_regress.py [ids...]"""
+"""Re-runs, for every kept seeded change, the quick checks recorded in its meta.json and reports
+regressions (a check recorded as DETECTED that now misses). With --refresh the recorded results
+(checks_run / check_outputs) are rewritten from this run and seeded/INDEX.md is regenerated.
+Usage: seed_regress.py [--refresh] [--all-checks] [ids...]
+  --all-checks  also re-run the checks recorded as missed (default: only DETECTED ones)"""
 import json, glob, subprocess, sys, os
-want = set(sys.argv[1:])
+args = sys.argv[1:]
+refresh = '--refresh' in args
+allc = '--all-checks' in args or refresh
+want = set(a for a in args if not a.startswith('--'))
 bad = []
-for d in sorted(glob.glob('/verif/seeded/S-*')):
-    m = json.load(open(os.path.join(d, 'meta.json')))
+for d in sorted(glob.glob('/verif/seeded/[ST]-*')):
+    mp = os.path.join(d, 'meta.json')
+    m = json.load(open(mp))
     if want and m['id'] not in want: continue
-    for p, r in m['checks_run'].items():
-        if r != 'DETECTED': continue
+    for p, r in list(m['checks_run'].items()):
+        if r != 'DETECTED' and not allc: continue
         o = subprocess.run(['/verif/tools/seedtest.sh', os.path.join(d, 'patch.diff'), p], capture_output=True, text=True).stdout
         ok = 'VIOLATION property=' in o
-        print(m['id'], p, 'detected' if ok else 'MISSED', flush=True)
-        if not ok: bad.append((m['id'], p, o[-300:]))
+        if 'BUILD-ERROR' in o or 'PATCH DOES NOT APPLY' in o:
+            print(m['id'], p, 'INFRA', o[-200:], flush=True); bad.append((m['id'], p, 'infra')); continue
+        print(m['id'], p, 'detected' if ok else ('MISSED' if r == 'DETECTED' else 'missed (as recorded)'), flush=True)
+        if not ok and r == 'DETECTED': bad.append((m['id'], p, o[-300:]))
+        if refresh:
+            m['checks_run'][p] = 'DETECTED' if ok else 'missed'
+            m.setdefault('check_outputs', {})[p] = o[:600]
+    if refresh: json.dump(m, open(mp, 'w'), indent=1)
 print('REGRESSIONS', bad)
+if refresh:
+    subprocess.run(['python3', '/verif/tools/gen_seed_index.py'])
